@@ -1886,3 +1886,22 @@ def _ip4_new(ex, c):
     for x in c.args[1:]:
         t = z3.Concat(t, x.t)
     return Adt("Ipv4Addr", None, [BV(t)])
+
+
+@summary("<F as FnMut>::call_mut", "<F as FnOnce>::call_once", "<F as Fn>::call", "<* as FnMut>::call_mut", "<* as FnOnce>::call_once", "<* as Fn>::call")
+def _fn_call(ex, c):
+    f, args = c.args[0], c.args[1]
+    f = deref1(ex, f) if isinstance(f, Ref) else f
+    while isinstance(f, Ref):
+        f = ex.load(f)
+    items = args.items if isinstance(args, Tup) else [args]
+    return ex.call_callable(f, list(items))
+
+
+@summary("core::slice::contains")
+def _slice_contains(ex, c):
+    seq = deref(ex, c.args[0])
+    x = deref(ex, c.args[1])
+    if not isinstance(seq, Seq) or not isinstance(x, BV):
+        raise Unsupported("slice::contains on non-integer elements")
+    return Bool(z3.Or([it.t == x.t for it in seq.items]) if seq.items else z3.BoolVal(False))
